@@ -23,7 +23,7 @@ import (
 	"github.com/MinterTeam/mhub2/module/x/zzverif/vrt"
 )
 
-const zzMultisig = "Mx00000000000000000000000000000000000000aa"
+const ZZMultisig = "Mx00000000000000000000000000000000000000aa"
 const zzOther = "Mx00000000000000000000000000000000000000bb"
 
 // zzNode is the scripted Minter node. It implements the two API calls the scan makes; any other call panics.
@@ -63,7 +63,30 @@ func ZZStubBlocks(c *http_client.Client, from, to uint64, failedTxs, events bool
 
 // ZZStubUnmarshalNew replaces the JSON round trip of ProtobufAny.UnmarshalNew for the one data type the scan decodes.
 func ZZStubUnmarshalNew(m *models.ProtobufAny) (models.Data, error) {
-	return &models.SendData{To: (*m)["to"].(string), Value: (*m)["value"].(string)}, nil
+	switch (*m)["@type"].(string) {
+	case "type.googleapis.com/api_pb.MultiSendData":
+		var list []*models.SendData
+		for _, it := range (*m)["list"].([]interface{}) {
+			im := it.(map[string]interface{})
+			list = append(list, &models.SendData{Coin: zzCoin(im["coin"]), To: im["to"].(string), Value: im["value"].(string)})
+		}
+		return &models.MultiSendData{List: list}, nil
+	case "type.googleapis.com/api_pb.EditMultisigData":
+		d := &models.EditMultisigData{Threshold: 667}
+		for _, w := range (*m)["weights"].([]interface{}) {
+			d.Weights = append(d.Weights, map[string]uint64{"600": 600, "400": 400}[w.(string)])
+		}
+		for _, a := range (*m)["addresses"].([]interface{}) {
+			d.Addresses = append(d.Addresses, a.(string))
+		}
+		return d, nil
+	}
+	return &models.SendData{Coin: zzCoin((*m)["coin"]), To: (*m)["to"].(string), Value: (*m)["value"].(string)}, nil
+}
+
+func zzCoin(v interface{}) *models.Coin {
+	cm := v.(map[string]interface{})
+	return &models.Coin{ID: map[string]uint64{"0": 0, "3": 3}[cm["id"].(string)], Symbol: cm["symbol"].(string)}
 }
 
 func zzClient(n *zzNode) *http_client.Client {
@@ -99,36 +122,48 @@ func zzSendTx(to string, payload []byte) *models.TransactionResponse {
 	return &models.TransactionResponse{Type: uint64(transaction.TypeSend), From: zzOther, Data: &data, Payload: payload}
 }
 
+const ZZBatchCoin = 3
+
+func zzMultisendData() *models.ProtobufAny {
+	return &models.ProtobufAny{"@type": "type.googleapis.com/api_pb.MultiSendData", "list": []interface{}{
+		map[string]interface{}{"coin": map[string]interface{}{"id": "3", "symbol": "HUBABUBA"}, "to": zzOther, "value": "5"}}}
+}
+
+func zzEditMultisigData() *models.ProtobufAny {
+	return &models.ProtobufAny{"@type": "type.googleapis.com/api_pb.EditMultisigData", "threshold": "667",
+		"weights": []interface{}{"600", "400"}, "addresses": []interface{}{"Mx0000000000000000000000000000000000000001", "Mx0000000000000000000000000000000000000002"}}
+}
+
 func zzTx(kind int, valsetNonce string) *models.TransactionResponse {
 	switch kind {
 	case zzKDeposit:
 		p, _ := json.Marshal(command.Command{Type: command.TypeSendToEth, Recipient: "0x00000000000000000000000000000000000000cc", Fee: "1"})
-		return zzSendTx(zzMultisig, p)
+		return zzSendTx(ZZMultisig, p)
 	case zzKDepositBadJSON:
-		return zzSendTx(zzMultisig, []byte("{not json"))
+		return zzSendTx(ZZMultisig, []byte("{not json"))
 	case zzKDepositBadCmd:
 		p, _ := json.Marshal(command.Command{Type: command.TypeSendToEth, Recipient: "0x00000000000000000000000000000000000000cc", Fee: "995"})
-		return zzSendTx(zzMultisig, p)
+		return zzSendTx(ZZMultisig, p)
 	case zzKSendElsewhere:
 		p, _ := json.Marshal(command.Command{Type: command.TypeSendToEth, Recipient: "0x00000000000000000000000000000000000000cc", Fee: "1"})
 		return zzSendTx(zzOther, p)
 	case zzKBatch:
-		return &models.TransactionResponse{Type: uint64(transaction.TypeMultisend), From: zzMultisig}
+		return &models.TransactionResponse{Type: uint64(transaction.TypeMultisend), From: ZZMultisig, Data: zzMultisendData()}
 	case zzKForeignBatch:
-		return &models.TransactionResponse{Type: uint64(transaction.TypeMultisend), From: zzOther}
+		return &models.TransactionResponse{Type: uint64(transaction.TypeMultisend), From: zzOther, Data: zzMultisendData()}
 	case zzKValset:
-		return &models.TransactionResponse{Type: uint64(transaction.TypeEditMultisig), From: zzMultisig, Payload: []byte(valsetNonce)}
+		return &models.TransactionResponse{Type: uint64(transaction.TypeEditMultisig), From: ZZMultisig, Payload: []byte(valsetNonce), Data: zzEditMultisigData()}
 	case zzKValsetBadNonce:
-		return &models.TransactionResponse{Type: uint64(transaction.TypeEditMultisig), From: zzMultisig, Payload: []byte("x")}
+		return &models.TransactionResponse{Type: uint64(transaction.TypeEditMultisig), From: ZZMultisig, Payload: []byte("x"), Data: zzEditMultisigData()}
 	case zzKForeignValset:
-		return &models.TransactionResponse{Type: uint64(transaction.TypeEditMultisig), From: zzOther, Payload: []byte(valsetNonce)}
+		return &models.TransactionResponse{Type: uint64(transaction.TypeEditMultisig), From: zzOther, Payload: []byte(valsetNonce), Data: zzEditMultisigData()}
 	}
 	return &models.TransactionResponse{Type: uint64(transaction.TypeSellCoin), From: zzOther}
 }
 
-// zzIsBridgeEvent: the reference classification, by the rule of the property (a deposit counts iff its command is
+// ZZIsBridgeEvent: the reference classification, by the rule of the property (a deposit counts iff its command is
 // well formed: decided with the real ValidateAndComplete, which C20's other half checks).
-func zzIsBridgeEvent(kind int) (event, batch, valset bool) {
+func ZZIsBridgeEvent(kind int) (event, batch, valset bool) {
 	switch kind {
 	case zzKDeposit, zzKDepositBadCmd:
 		fee := "1"
@@ -145,45 +180,45 @@ func zzIsBridgeEvent(kind int) (event, batch, valset bool) {
 	return false, false, false
 }
 
-type zzScript struct {
-	first  uint64
-	kinds  [][]int  // per block
-	vnonce []string // the valset nonce a block's edit-multisig transactions carry
+type ZZScript struct {
+	First  uint64
+	Kinds  [][]int  // per block
+	Vnonce []string // the valset nonce a block's edit-multisig transactions carry
 	node   *zzNode
 }
 
-func zzBuildScript(maxBlocks, maxTx, nKinds int) *zzScript {
+func ZZBuildScript(maxBlocks, maxTx, nKinds int) *ZZScript {
 	nBlocks := vrt.Len("blocks", 0, maxBlocks)
-	s := &zzScript{first: []uint64{0, 7, 250}[vrt.Choose("first.block", 3)]}
-	s.node = &zzNode{latest: s.first + uint64(nBlocks)}
+	s := &ZZScript{First: []uint64{0, 7, 250}[vrt.Choose("first.block", 3)]}
+	s.node = &zzNode{latest: s.First + uint64(nBlocks)}
 	for b := 0; b < nBlocks; b++ {
 		bn := string(rune('0' + b))
 		nt := vrt.Len("block"+bn+".txs", 0, maxTx)
 		vn := []string{"5", "9", "12"}[b%3]
-		blk := &models.BlockResponse{Height: s.first + 1 + uint64(b)}
+		blk := &models.BlockResponse{Height: s.First + 1 + uint64(b)}
 		var ks []int
 		for t := 0; t < nt; t++ {
 			k := vrt.Choose("block"+bn+".tx"+string(rune('0'+t)), nKinds)
 			ks = append(ks, k)
 			blk.Transactions = append(blk.Transactions, zzTx(k, vn))
 		}
-		s.kinds = append(s.kinds, ks)
-		s.vnonce = append(s.vnonce, vn)
+		s.Kinds = append(s.Kinds, ks)
+		s.Vnonce = append(s.Vnonce, vn)
 		s.node.blocks = append(s.node.blocks, blk)
 	}
 	return s
 }
 
 // expected cursor at block height h (first <= h <= latest) from the start cursor
-func (s *zzScript) expect(start context.ZZCursor, h uint64) context.ZZCursor {
+func (s *ZZScript) Expect(start context.ZZCursor, h uint64) context.ZZCursor {
 	c := start
 	c.Block = h
-	for b, ks := range s.kinds {
-		if s.first+1+uint64(b) > h {
+	for b, ks := range s.Kinds {
+		if s.First+1+uint64(b) > h {
 			break
 		}
 		for _, k := range ks {
-			ev, batch, valset := zzIsBridgeEvent(k)
+			ev, batch, valset := ZZIsBridgeEvent(k)
 			if ev {
 				c.EventNonce++
 			}
@@ -191,19 +226,52 @@ func (s *zzScript) expect(start context.ZZCursor, h uint64) context.ZZCursor {
 				c.BatchNonce++
 			}
 			if valset {
-				c.ValsetNonce = map[string]uint64{"5": 5, "9": 9, "12": 12}[s.vnonce[b]]
+				c.ValsetNonce = map[string]uint64{"5": 5, "9": 9, "12": 12}[s.Vnonce[b]]
 			}
 		}
 	}
 	return c
 }
 
-func (s *zzScript) eventsIn(h uint64) int {
+// ZZEvent is one bridge event of the script, in history order.
+type ZZEvent struct {
+	Kind        int
+	Height      uint64
+	ValsetNonce uint64
+}
+
+const (
+	ZZKDeposit = zzKDeposit
+	ZZKBatch   = zzKBatch
+	ZZKValset  = zzKValset
+)
+
+func (s *ZZScript) Client() *http_client.Client { return zzClient(s.node) }
+func (s *ZZScript) Latest() uint64              { return s.node.latest }
+
+// Events lists the bridge events at or below block h.
+func (s *ZZScript) Events(h uint64) []ZZEvent {
+	var out []ZZEvent
+	for b, ks := range s.Kinds {
+		height := s.First + 1 + uint64(b)
+		if height > h {
+			break
+		}
+		for _, k := range ks {
+			if ev, _, _ := ZZIsBridgeEvent(k); ev {
+				out = append(out, ZZEvent{Kind: k, Height: height, ValsetNonce: map[string]uint64{"5": 5, "9": 9, "12": 12}[s.Vnonce[b]]})
+			}
+		}
+	}
+	return out
+}
+
+func (s *ZZScript) EventsIn(h uint64) int {
 	n := 0
-	for b, ks := range s.kinds {
-		if s.first+1+uint64(b) == h {
+	for b, ks := range s.Kinds {
+		if s.First+1+uint64(b) == h {
 			for _, k := range ks {
-				if ev, _, _ := zzIsBridgeEvent(k); ev {
+				if ev, _, _ := ZZIsBridgeEvent(k); ev {
 					n++
 				}
 			}
@@ -212,7 +280,7 @@ func (s *zzScript) eventsIn(h uint64) int {
 	return n
 }
 
-func zzStatusPath() string {
+func ZZStatusPath() string {
 	if vrt.Symbolic() {
 		return "connector-status.json"
 	}
@@ -223,7 +291,7 @@ func zzStatusPath() string {
 	return filepath.Join(dir, "connector-status.json")
 }
 
-func zzReadStatus(path string) ([]byte, bool) {
+func ZZReadStatus(path string) ([]byte, bool) {
 	data, err := os.ReadFile(path)
 	return data, err == nil
 }
@@ -239,14 +307,14 @@ func ZZ_C20_CatchUp() {
 			nBlocks, maxTx, nKinds = 3, 2, 5 // longer history, the kinds up to zzKBatch and the unrelated one
 		}
 	}
-	s := zzBuildScript(nBlocks, maxTx, nKinds)
-	start := context.ZZCursor{Block: s.first, EventNonce: 1 + vrt.Uint64Below("start.eventNonce", 1<<56),
+	s := ZZBuildScript(nBlocks, maxTx, nKinds)
+	start := context.ZZCursor{Block: s.First, EventNonce: 1 + vrt.Uint64Below("start.eventNonce", 1<<56),
 		BatchNonce: vrt.Uint64Below("start.batchNonce", 1<<56), ValsetNonce: vrt.Uint64Below("start.valsetNonce", 1<<56)}
-	path := zzStatusPath()
+	path := ZZStatusPath()
 	if !vrt.Symbolic() {
 		defer os.RemoveAll(filepath.Dir(path))
 	}
-	ctx := context.Context{MinterMultisigAddr: zzMultisig, MinterClient: zzClient(s.node), Logger: log.NewNopLogger()}
+	ctx := context.Context{MinterMultisigAddr: ZZMultisig, MinterClient: zzClient(s.node), Logger: log.NewNopLogger()}
 	ctx.LoadStatus(path, config.MinterConfig{StartBlock: start.Block, StartEventNonce: start.EventNonce, StartBatchNonce: start.BatchNonce, StartValsetNonce: start.ValsetNonce})
 	vrt.Assert("c20.load.no-file-gives-configured-start", ctx.ZZCursor() == start)
 	acked := vrt.Uint64Below("acknowledged.nonce", 1<<57)
@@ -255,20 +323,20 @@ func ZZ_C20_CatchUp() {
 	vrt.Reach("c20.catchup.returned")
 	got := out.ZZCursor()
 	// what was persisted is what the connector continues with
-	data, written := zzReadStatus(path)
+	data, written := ZZReadStatus(path)
 	if written {
 		onDisk, ok := context.ZZDecodeCursor(data)
 		vrt.Assert("c20.cursor.persisted-is-returned", ok && onDisk == got)
 	} else {
 		vrt.Assert("c20.cursor.nothing-persisted-means-unchanged", got == start)
 	}
-	vrt.Assert("c20.cursor.block-in-range", got.Block >= s.first && got.Block <= s.node.latest)
-	if got.Block < s.first || got.Block > s.node.latest {
+	vrt.Assert("c20.cursor.block-in-range", got.Block >= s.First && got.Block <= s.node.latest)
+	if got.Block < s.First || got.Block > s.node.latest {
 		return
 	}
-	want := s.expect(start, got.Block)
+	want := s.Expect(start, got.Block)
 	cls := ""
-	if got.Block < s.node.latest && s.eventsIn(got.Block+1) >= 2 {
+	if got.Block < s.node.latest && s.EventsIn(got.Block+1) >= 2 {
 		cls = "[scan stopped inside a block that holds several bridge events]"
 	}
 	if got.Block == s.node.latest {
@@ -294,7 +362,7 @@ func ZZ_C20_LoadStatus() {
 	defCur := context.ZZCursor{Block: def.StartBlock, EventNonce: def.StartEventNonce, BatchNonce: def.StartBatchNonce, ValsetNonce: def.StartValsetNonce}
 	last := context.ZZCursor{Block: vrt.Uint64Below("last.block", 1<<56), EventNonce: vrt.Uint64Below("last.eventNonce", 1<<56),
 		BatchNonce: vrt.Uint64Below("last.batchNonce", 1<<56), ValsetNonce: vrt.Uint64Below("last.valsetNonce", 1<<56)}
-	path := zzStatusPath()
+	path := ZZStatusPath()
 	if !vrt.Symbolic() {
 		defer os.RemoveAll(filepath.Dir(path))
 	}
